@@ -376,7 +376,7 @@ package leader
 //@ func CalculateBackoff(cfg, attempt)
 //@   tags C17
 //@   flag pure
-//@   requires C17.backoff_domain: cfg.InitialBackoff > 0 && cfg.MaxBackoff >= 0 && cfg.BackoffMultiplier >= 1.0 && 0.0 <= cfg.Jitter && cfg.Jitter <= 1.0 && attempt >= 0 && cfg.MaxBackoff <= 4611686018427387904
+//@   requires C17.backoff_domain: cfg.InitialBackoff > 0 && cfg.MaxBackoff >= 0 && cfg.BackoffMultiplier >= 1.0 && 0.0 <= cfg.Jitter && cfg.Jitter <= 1000.0 && attempt >= 0 && cfg.MaxBackoff <= 4611686018427387904
 //@   ensures C17.backoff_nonneg: result >= 0
 //@   ensures C17.backoff_within_jitter: real(result) <= BackoffBase(cfg, attempt) * (1.0 + cfg.Jitter) && real(result) >= BackoffBase(cfg, attempt) * (1.0 - cfg.Jitter) - 1.0
 
@@ -1297,6 +1297,7 @@ package leader
 //@   on recv chan as r set pending = r.ok
 //@   on send as s assert C14.forward_blocks: s.blocking
 //@   on send as s assert C14.forward_faithful: pending && ((got == nil) == (s.value == nil)) && (got != nil ==> istype(s.value, *natsEntryAdapter) && s.value.(*natsEntryAdapter).entry == got)
+//@   on send as s assert C14.each_change_gets_its_own_entry: s.value == nil || newInThisIteration(s.value)
 //@   on send set pending = false
 //@   on backedge 0 assert C14.every_entry_forwarded: !pending
 //@   on makechan assert C14.updates_stable: inonce()
